@@ -61,7 +61,7 @@ func init() {
 	// C20 (bounded): the assumed case lemmas of the library (normalisers commute with case, the
 	// fuzzy matcher folds) and the whitespace clause, checked end to end on the real code.
 	suites["C20-case-ws"] = func() result {
-		r := result{Name: "C20-case-ws", Bound: "real SearchUniversal / cached search / ProcessQuery / TF-IDF / ValidateQuery on a 14-command database: 60 base queries (1..6 words from a 34-word vocabulary with ASCII, accented, Greek, Cyrillic, digits, punctuation, typos) x 4 case re-spellings (upper, title, seeded random, Kelvin / Angstrom / Ohm signs for k / å / ω) x 6 option sets (NLP, fuzzy, pipeline, limit); whitespace: 60 queries x 11 paddings (spaces, tabs, newlines, CR next to blanks, no-break / em / ideographic spaces, leading / trailing / repeated) through ValidateQuery"}
+		r := result{Name: "C20-case-ws", Bound: "real SearchUniversal / cached search / ProcessQuery / TF-IDF / ValidateQuery on a 14-command database: 60 base queries (1..6 words from a 39-word vocabulary with ASCII, accented, Greek, Cyrillic, digits, punctuation, typos) x 4 case re-spellings (upper, title, seeded random, Kelvin / Angstrom / Ohm signs for k / å / ω) x 6 option sets (NLP, fuzzy, pipeline, limit); whitespace: 60 queries x 11 paddings (spaces, tabs, newlines, CR next to blanks, no-break / em / ideographic spaces, leading / trailing / repeated) through ValidateQuery"}
 		var bad []string
 		fail := func(f string, a ...interface{}) {
 			if len(bad) < 5 {
@@ -92,7 +92,7 @@ func init() {
 			mk("ps aux | grep name", "Show running processes", "process", "list", "ps"),
 			mk("ssh user@host", "Connect to a remote machine", "ssh", "remote", "connect"),
 		}
-		words := []string{"compress", "archive", "directory", "git", "commit", "list", "files", "find", "search", "text", "docker", "run", "download", "network", "disk", "usage", "show", "the", "a", "how", "to", "café", "résumé", "σύνολο", "файл", "копировать", "zip", "2fa", "k8s", "comprss", "fles", "seach", "tar.gz", "node.js"}
+		words := []string{"compress", "archive", "directory", "git", "commit", "list", "files", "find", "search", "text", "docker", "run", "download", "network", "disk", "usage", "show", "the", "a", "how", "to", "café", "résumé", "σύνολο", "файл", "копировать", "zip", "2fa", "k8s", "comprss", "fles", "seach", "tar.gz", "node.js", "doker", "netwrk", "dsk", "kubctl", "grk"}
 		rng := rand.New(rand.NewSource(20))
 		var queries []string
 		for i := 0; i < 60*scale; i++ {
